@@ -2,7 +2,8 @@
    arithmetic; that the CONVERGED answers coincide is a metamorphic support sweep). Statements only. *)
 From Coq Require Import List Arith ZArith QArith Bool String Permutation.
 From BZ Require Import Base.Ops Base.PyVal Model.Curve Gen.PyFnGeometric Theory.CurveEval Theory.CurveElevate Theory.TriEdges
-  Theory.Predicates Theory.Presentation Model.Rounds Theory.RoundSwap.
+  Theory.Predicates Theory.Presentation Model.Rounds Theory.RoundSwap Model.Triangle Model.TriElevate Theory.TriElevateList
+  Theory.TriAffine.
 Import ListNotations.
 
 (* reversing a curve maps its parameter to 1 - s *)
@@ -45,3 +46,18 @@ Theorem C17_candidate_flow_is_swap_equivariant : forall cands,
   map swap_ev (snd (one_round cands)) = snd (one_round (map swapc cands)).
 Proof. exact one_round_swap. Qed.
 Print Assumptions C17_candidate_flow_is_swap_equivariant.
+
+(* triangles: degree elevation presents the same map point for point (every degree), and an affine map of the control net
+   (translation, scaling by a power of two, mirroring - one coordinate row at a time) acts on the point, barycentric parameters
+   unchanged; hence the elevated / moved presentations swept by the harness are the same two point sets *)
+Theorem C17_triangle_elevation : forall (T : Type) (K : Ops T), field_of K -> char0 K ->
+  forall (d : nat) (v : list T) (l1 l2 l3 : T), List.length v = tri_size d -> oadd K (oadd K l1 l2) l3 = o1 K ->
+  tri_bernstein K (S d) (tri_elevate K d v) l1 l2 l3 = tri_bernstein K d v l1 l2 l3.
+Proof. exact @tri_elevate_correct. Qed.
+Print Assumptions C17_triangle_elevation.
+Theorem C17_triangle_affine_maps : forall (T : Type) (K : Ops T), ring_of K ->
+  forall (k c : T) (d : nat) (v : list T) (l1 l2 l3 : T), List.length v = tri_size d ->
+  tri_bernstein K d (map (fun x => oadd K (omul K k x) c) v) l1 l2 l3
+  = oadd K (omul K k (tri_bernstein K d v l1 l2 l3)) (omul K c (pw K (oadd K (oadd K l1 l2) l3) d)).
+Proof. exact @tri_bernstein_affine. Qed.
+Print Assumptions C17_triangle_affine_maps.
